@@ -29,6 +29,9 @@ func ruleSortInventory(c *Ctx, r *Report, clause string, pkgPrefixes ...string) 
 	count := map[string]int{}
 	n := 0
 	calls := w.callersOf(func(nm string) bool {
+		if strings.HasPrefix(nm, "slices.Sorted") {
+			return false // returns a new slice, nothing is reordered in place
+		}
 		return strings.HasPrefix(nm, "sort.") || strings.HasPrefix(nm, "slices.Sort") || nm == "slices.Reverse"
 	})
 	sort.Slice(calls, func(i, j int) bool { return calls[i].Pos() < calls[j].Pos() })
@@ -45,6 +48,9 @@ func ruleSortInventory(c *Ctx, r *Report, clause string, pkgPrefixes ...string) 
 			continue
 		}
 		n++
+		if isFreshCopy(cl.Common().Args[0]) {
+			continue // a private copy is sorted: no other reader can observe it
+		}
 		what := sortOperandDesc(cl.Common().Args[0])
 		base := fn + ":sorts(" + what + ")"
 		count[base]++
@@ -78,11 +84,22 @@ func sortOperandDesc(v ssa.Value) string {
 		}
 	}
 	for p := range a.Params {
-		parts = append(parts, "param "+p.Name())
+		parts = append(parts, "param <"+short(p.Type().String())+">")
 	}
 	sort.Strings(parts)
 	if len(parts) == 0 {
 		return "a local slice"
 	}
 	return strings.Join(parts, " ")
+}
+
+// isFreshCopy: v is the result of slices.Clone (possibly converted), a copy nobody else holds.
+func isFreshCopy(v ssa.Value) bool {
+	switch x := stripTrivial(v).(type) {
+	case *ssa.Call:
+		return strings.HasPrefix(calleeName(x), "slices.Clone")
+	case *ssa.MakeInterface:
+		return isFreshCopy(x.X)
+	}
+	return false
 }
